@@ -57,6 +57,10 @@ type Script struct {
 	// Retry: when the operation returns an error it is repeated once (the caller's
 	// retry); the exit code then reports the retry's result
 	Retry bool `json:"retry,omitempty"`
+	// Probe (cred): after an operation that ended in an error, the store it ran on
+	// and a store opened afresh on the file are asked for these addresses; the
+	// child exits with 81 when they disagree
+	Probe []string `json:"probe,omitempty"`
 }
 
 // Point addresses a crash point: the N-th invocation (1-based, counted from process
@@ -217,8 +221,8 @@ func (r *Runner) RunFaultedFrom(sc *Script, pt Point, errno string, persistent b
 	if rerr == nil {
 		return 0, nil
 	}
-	if ee, ok := rerr.(*exec.ExitError); ok && ee.ExitCode() == 80 {
-		return 80, nil
+	if ee, ok := rerr.(*exec.ExitError); ok && (ee.ExitCode() == 80 || ee.ExitCode() == 81) {
+		return ee.ExitCode(), nil
 	}
 	return -1, fmt.Errorf("faulted run (%s %s #%d): %v: %s", errno, pt.Syscall, pt.N, rerr, out)
 }
